@@ -241,6 +241,18 @@ func checkSet(c SetCase) evid.Outcome {
 
 func TestPropSets(t *testing.T) { evid.RunProp(t, "sets", 0.25, genSet, checkSet) }
 
+// FuzzStructure: coverage-guided exploration of the same generator (rapid.MakeFuzz turns the fuzzer's bytes into draws).
+func FuzzStructure(f *testing.F) {
+	f.Fuzz(rapid.MakeFuzz(func(t *rapid.T) {
+		c := genZones(t)
+		o := check(c)
+		if o.Violation != "" && !(o.Finding != "" && evid.IsKnown(o.Finding)) {
+			evid.Record("fuzzstructure", c, o)
+			t.Fatalf("%s replay=%s", o.Violation, evid.SaveFailure("fuzzstructure"))
+		}
+	}))
+}
+
 func TestReplay(t *testing.T) {
-	evid.Replay(t, evid.R("structure", check), evid.R("zones", check), evid.R("sets", checkSet))
+	evid.Replay(t, evid.R("fuzzstructure", check), evid.R("structure", check), evid.R("zones", check), evid.R("sets", checkSet))
 }
